@@ -27,17 +27,17 @@ impl Property for C15 {
         "C15"
     }
     fn rule(&self) -> &'static str {
-        "case = well-scoped tree seeded with redundancy (in-scope bindings re-declared at any depth, alias prefixes for a namespace, default namespaces interleaved with prefixed ones, attributes that need a prefixed binding while the default covers the element, prefixes shadowed below a candidate) and a start node (document, fragment or element); precondition to_string Ok is checked and counted. After deduplicate_namespaces: every element's declaration map is a sub-map of its map before, names/attributes/content are unchanged, to_string still succeeds, the output reparses to the original content, and a second call removes nothing. Non-trivial = at least one declaration was removed or a redundant-looking candidate had to be kept. Distinct by hash of the tree."
+        "case = well-scoped tree seeded with redundancy (in-scope bindings re-declared at any depth, alias prefixes for a namespace, default namespaces interleaved with prefixed ones, attributes that need a prefixed binding while the default covers the element, prefixes shadowed below a candidate) and a start node (document, fragment or element); plan trees-stripped additionally strips the xmlns=\"\" that protects no-namespace elements below a default namespace and adds default declarations (API-only layouts the serializer repairs on the fly); precondition to_string Ok is checked and counted. After deduplicate_namespaces: every element's declaration map is a sub-map of its map before, names/attributes/content are unchanged, to_string still succeeds, the output reparses to the original content, and a second call removes nothing. Non-trivial = at least one declaration was removed or a redundant-looking candidate had to be kept. Distinct by hash of the tree."
     }
     fn plans(&self, tier: Tier) -> Vec<Plan> {
-        let mk = |name: &'static str, cases, max_nodes| Plan {
+        let mk = |name: &'static str, cases, max_nodes, variant| Plan {
             name,
             kind: PlanKind::Random { cases, max_len: 1200 },
-            knobs: Knobs { max_nodes, ..Default::default() },
+            knobs: Knobs { max_nodes, variant, ..Default::default() },
         };
         match tier {
-            Tier::Quick => vec![mk("trees", 300_000, 30)],
-            Tier::Thorough => vec![mk("trees", 1_500_000, 30), mk("trees-big", 60_000, 100)],
+            Tier::Quick => vec![mk("trees", 200_000, 30, 0), mk("trees-stripped", 200_000, 30, 1)],
+            Tier::Thorough => vec![mk("trees", 1_500_000, 30, 0), mk("trees-big", 60_000, 100, 0), mk("trees-stripped", 1_500_000, 30, 1)],
         }
     }
 
@@ -47,11 +47,16 @@ impl Property for C15 {
         o.attr_alpha = Alpha::Tiny;
         o.redundant_decls = true;
         o.max_depth = 6;
-        let doc = match src.weighted(&[4, 2, 3]) {
+        let mut doc = match src.weighted(&[4, 2, 3]) {
             0 => gen::gen_document(src, &o),
             1 => gen::gen_fragment(src, &o),
             _ => gen::gen_element_tree(src, &o),
         };
+        if ctx.knobs.variant == 1 {
+            // plan trees-stripped: no-namespace elements below a default namespace without
+            // their protecting xmlns="" (API-only layout; the serializer undeclares on the fly)
+            gen::strip_undeclarations(&mut doc, src);
+        }
         let mut xot = Xot::new();
         let mut hs = vec![];
         let root = match bridge::build(&mut xot, &doc, &mut hs) {
